@@ -244,6 +244,145 @@ class Random(Part):
         return outcome_for(case)
 
 
+# ----------------------------------------------------------------------------------------------------
+# histories: the graph is described step by step, containers handed over are the caller's, components are enumerated
+# at any point and more than once
+
+
+@st.composite
+def history_cases(draw):
+    n = draw(st.integers(2, 7))
+    ids = st.integers(0, n - 1)
+    kinds = st.sampled_from(['list', 'tuple', 'set', 'set', 'frozenset', 'iter', 'scratch', 'scratch'])
+    after = st.sampled_from(['keep', 'keep', 'clear', 'add'])
+    ops = []
+    first = draw(st.lists(ids, min_size=1, max_size=n, unique=True))
+    ops.append(['nodes', first, draw(kinds), draw(after), draw(ids)])
+    for _ in range(draw(st.integers(2, 14))):
+        what = draw(st.sampled_from(['nbs', 'nbs', 'nbs', 'nbs', 'nodes', 'sccs', 'sccs']))
+        if what == 'nbs':
+            ops.append(['nbs', draw(ids), draw(st.lists(ids, max_size=4, unique=True)), draw(kinds), draw(after),
+                        draw(ids)])
+        elif what == 'nodes':
+            ops.append(['nodes', draw(st.lists(ids, min_size=1, max_size=3, unique=True)), draw(kinds), draw(after),
+                        draw(ids)])
+        else:
+            ops.append(['sccs', draw(st.booleans())])
+    ops.append(['sccs', True])
+    ops.append(['sccs', False])
+    return {'n': n, 'ops': ops, 'ntype': draw(st.sampled_from(['raw_int', 'raw_str', 'raw_tuple', 'obj', 'int', 'str'])),
+            'ctor': draw(st.booleans())}
+
+
+def run_history(case):
+    from zope.testrunner.digraph import DiGraph
+    n = case['n']
+    nodes, mh, fresh = make_nodes(n, case['ntype'])
+    obj = case['ntype'] == 'obj'
+    index = {(id(nd) if obj else nd): i for i, nd in enumerate(nodes)}
+    known, adj = set(), {}
+    scratch = set()
+    viol, labels = [], set()
+    nsccs = 0
+
+    def container(idx, kind, for_nodes):
+        items = [nodes[i] if (obj or for_nodes) else fresh(i) for i in idx]
+        if kind == 'list':
+            return list(items)
+        if kind == 'tuple':
+            return tuple(items)
+        if kind == 'set':
+            return set(items)
+        if kind == 'frozenset':
+            return frozenset(items)
+        if kind == 'iter':
+            return iter(items)
+        scratch.clear()
+        scratch.update(items)
+        labels.add('scratch-set-reused')
+        return scratch
+
+    def afterwards(c, how, extra):
+        # the container still belongs to the caller
+        if how == 'keep' or not isinstance(c, (list, set)):
+            return
+        labels.add('container-changed-afterwards')
+        if how == 'clear':
+            c.clear()
+        elif isinstance(c, list):
+            c.append(nodes[extra])
+        else:
+            c.add(nodes[extra])
+
+    g = None
+    try:
+        for op in case['ops']:
+            if op[0] == 'nodes':
+                _, idx, kind, how, extra = op
+                c = container(idx, kind, True)
+                if g is None:
+                    if case['ctor']:
+                        g = DiGraph(c, make_hashable=mh)
+                    else:
+                        g = DiGraph(make_hashable=mh)
+                        g.add_nodes(c)
+                else:
+                    g.add_nodes(c)
+                    if nsccs:
+                        labels.add('nodes-added-after-enumeration')
+                known |= set(idx)
+                afterwards(c, how, extra)
+            elif op[0] == 'nbs':
+                _, i, idx, kind, how, extra = op
+                c = container(idx, kind, False)
+                g.add_neighbors(nodes[i], c)
+                if i in known:
+                    adj.setdefault(i, set()).update(j for j in idx if j in known)
+                    if nsccs:
+                        labels.add('edges-added-after-enumeration')
+                afterwards(c, how, extra)
+            else:
+                trivial = op[1]
+                nsccs += 1
+                got = [[index[id(x) if obj else x] for x in comp] for comp in g.sccs(trivial)]
+                order = sorted(known)
+                pos = {k: p for p, k in enumerate(order)}
+                m = [[False] * len(order) for _ in order]
+                for a, bs in adj.items():
+                    for b in bs:
+                        m[pos[a]][pos[b]] = True
+                ref = {frozenset(order[p] for p in comp) for comp in reference_sccs(len(order), m)}
+                if not trivial:
+                    ref = {c for c in ref if len(c) > 1 or next(iter(c)) in adj.get(next(iter(c)), ())}
+                gs = [frozenset(c) for c in got]
+                if any(len(set(c)) != len(c) for c in got) or len(gs) != len(set(gs)):
+                    viol.append(('C20/component-yielded-twice', 'enumeration %d, sccs(%s) = %s' % (nsccs, trivial, got)))
+                elif set(gs) != ref:
+                    viol.append(('C20/wrong-partition' if trivial else 'C20/wrong-cycles',
+                                 'enumeration %d after %s: sccs(%s) = %s, reference %s'
+                                 % (nsccs, case['ops'], trivial, sorted(map(sorted, gs)), sorted(map(sorted, ref)))))
+                if viol:
+                    break
+    except Exception as e:  # noqa: BLE001 - no step of a legal history may raise
+        viol.append(('C20/exception/%s' % type(e).__name__, '%s: %s in history %s' % (type(e).__name__, e, case['ops'])))
+    return Outcome(viol, sorted(labels) + [case['ntype']], len(labels) >= 1 and len(adj) >= 2)
+
+
+class History(Part):
+    """step-by-step descriptions of a graph: nodes and neighbours added in any order and in several calls, handed over in
+    the caller's own containers (lists, sets, one-shot iterators, one scratch set that is re-used for every call, containers
+    changed by the caller afterwards), components enumerated in between and again at the end; reference = Warshall closure of
+    a model that follows the documented meaning of every call"""
+    name = 'history'
+    examples = {'quick': 4000, 'thorough': 150000}
+
+    def strategy(self, tier):
+        return history_cases()
+
+    def execute(self, case):
+        return run_history(case)
+
+
 class Fuzz(Part):
     """thorough tier: atheris (libFuzzer) with coverage feedback from digraph.py, same oracle inside the target; one
     campaign per worker, each from an empty corpus with its own libFuzzer seed.  If atheris cannot be imported the part
@@ -299,18 +438,22 @@ class C20(Prop):
     registered = True
     technique = ('exhaustive small-scope enumeration + Hypothesis random graphs + (thorough) coverage-guided atheris campaigns '
                  'vs. reachability-closure oracle')
-    level_text = 'Every digraph on <=4 nodes (with self-loops) is enumerated in several insertion orders / node kinds / call patterns and compared with an independent reference partition; Hypothesis graphs of 5..14 nodes extend this beyond the bound. Exhaustive inside the bound, sampled beyond.'
+    level_text = 'Every digraph on <=4 nodes (with self-loops) is enumerated in several insertion orders / node kinds / call patterns and compared with an independent reference partition; Hypothesis graphs of 5..14 nodes extend this beyond the bound; generated call histories (incremental description, caller-owned containers, repeated enumeration) are compared with a model after every enumeration. Exhaustive inside the bound, sampled beyond.'
     level_note = 'Trusts the Warshall-closure reference implementation in ztv/props/c20.py and CPython set/dict semantics.'
     rule = ('exhaustive part: all digraphs with self-loops on <=4 nodes, each built in several node '
             'insertion orders, with int/str/tuple (value-keyed) and object (identity-keyed) nodes, with and '
             'without add_neighbors calls for sink nodes, with edges to unknown nodes; random part: Hypothesis '
             'graphs with 5..14 nodes (sparse/dense/chain/planted-cycle styles). Non-trivial = the graph has a '
-            'component with >=2 nodes AND a trivial component (single node, no self-loop). Enumerated cases '
+            'component with >=2 nodes AND a trivial component (single node, no self-loop). history part: generated call '
+            'histories (add_nodes / add_neighbors in any order and in several calls, containers that stay the caller\'s: '
+            're-used scratch set, containers changed afterwards, one-shot iterators; sccs() in between and repeatedly) '
+            'against a model of the documented meaning of every call; non-trivial = a re-used / changed container or a '
+            'change after an enumeration, and >=2 nodes with edges. Enumerated cases '
             'are distinct by construction and counted; generated cases are de-duplicated by hash.')
     assumptions = ('reference partition computed by Warshall reachability closure (independent of Tarjan)',
                    'value-equal nodes (int/str/tuple) are used with make_hashable=None or identity function, as '
                    'the class docstring prescribes for such node types')
-    parts = (Exhaustive(), Random(), Fuzz())
+    parts = (Exhaustive(), Random(), History(), Fuzz())
 
     def hashseed(self, w):
         return str(w % 4)  # str nodes under 4 different hash seeds
